@@ -115,3 +115,68 @@ pub fn c15(ctx: &Ctx) {
         );
     }
 }
+
+// ------------------------------------------------------------------------------------------ C06
+fn c06_nontrivial(f: &BTreeSet<String>) -> bool {
+    has(f, "data_after_reopen")
+        && (has(f, "reopen_with_multi_unit_block") || has(f, "reopen_with_tail_cursor") || has(f, "reopen_with_empty_block") || has(f, "reopen_twice") || has(f, "clock_regression"))
+}
+
+fn c06_mix() -> Mix {
+    Mix { append: 26, batch: 10, batch_many: 1, read_next: 16, batch_read: 16, peek: 5, stateless: 0, count: 5, reopen: 9, clock: 1, reject: 3, ..Mix::consuming() }
+}
+
+pub fn c06(ctx: &Ctx) {
+    regress_and_probes(ctx);
+    let enabled = vec![Oracle::Content, Oracle::Progress, Oracle::Count, Oracle::Crash, Oracle::ReadErr, Oracle::Reject];
+    let mut opts = RunOpts::default();
+    opts.exclude = exclusions_for("C06");
+    let w = cores();
+    let q = ctx.tier == Tier::Quick;
+    let plans: Vec<(&str, SizeProfile, std::ops::Range<usize>, usize)> = vec![
+        ("tiny", SizeProfile::Tiny, 10..90, if q { 800 } else { 20_000 }),
+        ("block", SizeProfile::Block, 6..26, if q { 220 } else { 8_000 }),
+        ("multi", SizeProfile::Multi, 5..16, if q { 80 } else { 3_000 }),
+    ];
+    for (name, prof, nops, cases) in plans {
+        let nops2 = nops.clone();
+        e1_search(
+            ctx,
+            name,
+            move || case_strategy(c06_mix(), prof, nops2.clone(), 3, mode_strategy()),
+            opts.clone(),
+            enabled.clone(),
+            c06_nontrivial,
+            true,
+            cases,
+            w,
+        );
+    }
+}
+
+// ------------------------------------------------------------------------------------------ C17
+fn c17_nontrivial(f: &BTreeSet<String>) -> bool {
+    has(f, "reopen_after_marker_change")
+}
+
+pub fn c17(ctx: &Ctx) {
+    regress_and_probes(ctx);
+    let enabled = vec![Oracle::Marker, Oracle::Crash];
+    let mut opts = RunOpts::default();
+    opts.exclude = exclusions_for("C17");
+    opts.marker_probes = true;
+    let w = cores();
+    let q = ctx.tier == Tier::Quick;
+    let mix = Mix { append: 10, batch: 3, batch_many: 0, read_next: 3, batch_read: 2, peek: 0, stateless: 0, count: 0, reopen: 8, clock: 0, reject: 1, marks: 30, max_batch: 4 };
+    e1_search(
+        ctx,
+        "markers",
+        move || case_strategy(mix.clone(), SizeProfile::Tiny, 6..60, 3, mode_strategy()),
+        opts.clone(),
+        enabled.clone(),
+        c17_nontrivial,
+        false,
+        if q { 1200 } else { 30_000 },
+        w,
+    );
+}
